@@ -111,7 +111,47 @@ def transforms(draw, case, maxn=6):
 
 
 @st.composite
+def grounded_case(draw):
+    """objects standing on a ground plane (the program then looks for ends on the plane and puts them exactly onto
+    it): half circles and quarter circles on their feet, wires rising from the plane; moved about in the plane only"""
+    objs = []
+    for i in range(draw(st.integers(1, 2))):
+        if draw(st.integers(0, 2)):
+            a1, a2 = draw(st.sampled_from([(0.0, 180.0), (0.0, 90.0), (180.0, 0.0), (90.0, 180.0), (0.0, 120.0)]))
+            objs.append(dict(type='arc', n=draw(st.integers(3, 24)), R=gen.r6(draw(gen.logf(1e-2, 100))), a1=a1, a2=a2,
+                             r=gen.r6(draw(gen.logf(1e-6, 1e-3))), tag=None))
+        else:
+            n = draw(st.integers(1, 12))
+            L = draw(gen.logf(1e-2, 100.0))
+            foot = [gen.r6(draw(st.floats(-50, 50))), gen.r6(draw(st.floats(-50, 50))), 0.0]
+            top = [gen.r6(foot[0] + L * draw(st.floats(-0.5, 0.5))), gen.r6(foot[1] + L * draw(st.floats(-0.5, 0.5))), gen.r6(L)]
+            o = dict(type='wire', n=n, p1=foot, p2=top, r=gen.r6(draw(gen.logf(1e-6, 1.0)) * L / n / 2.5), tag=None, taper=0,
+                     tmin=None, tmax=None)
+            if draw(st.booleans()):
+                o['p1'], o['p2'] = o['p2'], o['p1']
+            objs.append(o)
+    case = {'f': 10.0, 'env': {'kind': 'ideal'}, 'objs': objs, 'xforms': [], 'scales': [],
+            'sources': [{'pulse': 0, 'v': [1.0, 0.0]}], 'loads': []}
+    draw(gen.tags(objs))
+    build.assign_tags(case)
+    tagsl = [o['_tag'] for o in objs]
+    for k in range(draw(st.integers(0, 3))):
+        tag = draw(st.sampled_from([None, None] + tagsl))
+        if draw(st.booleans()):
+            v = [0.0, 0.0, gen.r6(draw(st.floats(-360, 360)))]
+            case['xforms'].append({'kind': 'rotate', 'key': float(k), 'v': v, 'tag': tag})
+        else:
+            v = [gen.r6(draw(st.floats(-100, 100))), gen.r6(draw(st.floats(-100, 100))), 0.0]
+            case['xforms'].append({'kind': 'translate', 'key': float(k), 'v': v, 'tag': tag})
+    if draw(st.integers(0, 2)) == 0:
+        case['scales'].append({'f': gen.r6(draw(gen.logf(0.01, 100))), 'tag': draw(st.sampled_from([None, None] + tagsl))})
+    return case
+
+
+@st.composite
 def seg_case(draw):
+    if draw(st.integers(0, 7)) == 0:
+        return draw(grounded_case())
     objs = [draw(one_object()) for _ in range(draw(st.integers(1, 3)))]
     case = {'f': 10.0, 'env': {'kind': 'free'}, 'objs': objs, 'xforms': [], 'scales': [],
             'sources': [{'pulse': 0, 'v': [1.0, 0.0]}], 'loads': []}
@@ -128,6 +168,8 @@ def strategy(tier):
 def check(case):
     labels = []
     nt = False
+    if case['env']['kind'] != 'free':
+        labels.append('standing-on-ground')
     xf = case.get('xforms') or []
     sc = case.get('scales') or []
     if len(xf) + len(sc) >= 2:
